@@ -51,6 +51,7 @@ pub fn run_partition(case: &Case, check_infix: bool) -> PartResult {
     let err = sc.sub("errors.txt");
     let cfg = &case.cfg;
     let mut ex = Exec::new(cfg, Some(case.t0));
+    ex.dir = Some(dir.clone());
     if cfg.mode.is_async() && case.runs.iter().any(|r| r.ops.iter().any(|o| matches!(o, Op::FailWrite(_)))) {
         // count every hit of the point "write" from the start (see Exec::count_writes)
         h().set_mode(crate::hooks::MODE_FAULT);
@@ -100,7 +101,7 @@ pub fn run_partition(case: &Case, check_infix: bool) -> PartResult {
         }
     };
     if out.fail.is_none() {
-        let stray = stray_entries(cfg, &snap);
+        let stray: Vec<String> = stray_entries(cfg, &snap).into_iter().filter(|n| !n.starts_with("moved-away-")).collect();
         if !stray.is_empty() {
             out.set_fail("stray-file", format!("entries outside the naming pattern: {stray:?}"));
         }
